@@ -48,6 +48,29 @@ Struct(s) ==
     ELSE IF s = "set" THEN         \* a set inside a list, and aliased
         <<SAssign(TVar("sh"), ACall(AVar("set"), <<AList(<<AInt(1), AInt(2)>>)>>)),
           SAssign(TVar("x"), AList(<<AVar("sh"), ATuple(<<AVar("sh")>>)>>))>>
+    ELSE IF s = "registry" THEN
+        \* containers keyed by the very closures that capture them; the closures are exported FIRST, so
+        \* that freezing reaches each container only through its own key:
+        \*   def make():                       def make_s():
+        \*       reg = {}                          seen = set()
+        \*       def handler(): return reg         def visit(): return seen
+        \*       reg[handler] = [1, 2]             seen.add(visit); seen.add(3)
+        \*       return handler                    return visit
+        \*   fn = make(); vs = make_s(); x = fn()[fn]
+        <<SDef("make", <<>>,
+               <<SAssign(TVar("reg"), ADict(<<>>, <<>>)),
+                 SDef("handler", <<>>, <<SReturn(AVar("reg"))>>),
+                 SAssign(TIndex(AVar("reg"), AVar("handler")), AList(<<AInt(1), AInt(2)>>)),
+                 SReturn(AVar("handler"))>>),
+          SDef("make_s", <<>>,
+               <<SAssign(TVar("seen"), ACall(AVar("set"), <<>>)),
+                 SDef("visit", <<>>, <<SReturn(AVar("seen"))>>),
+                 SExpr(AMCall(AVar("seen"), "add", <<AVar("visit")>>)),
+                 SExpr(AMCall(AVar("seen"), "add", <<AInt(3)>>)),
+                 SReturn(AVar("visit"))>>),
+          SAssign(TVar("fn"), ACall(AVar("make"), <<>>)),
+          SAssign(TVar("vs"), ACall(AVar("make_s"), <<>>)),
+          SAssign(TVar("x"), AIndex(ACall(AVar("fn"), <<>>), AVar("fn")))>>
     ELSE \* "closure": a function with captured list and a default argument holding a dict
         <<SAssign(TVar("cap"), AList(<<AInt(1)>>)),
           SDef("fn", <<AParam("v", <<118>>), [n |-> "d", ncp |-> <<100>>, kind |-> "normal", d |-> ADict(<<K(K_n)>>, <<AInt(0)>>)]>>,
@@ -89,6 +112,7 @@ Paths(s) ==
                                PP(AIndex(ADot(XV, "b", K_b), K(K_k)), "list"), PP(ADot(XV, "c", K_c), "set")}
     ELSE IF s = "record" THEN {PP(XV, "list"), PP(ADot(AIndex(XV, AInt(0)), "l", <<108>>), "list"),
                                PP(ADot(AIndex(XV, AInt(0)), "d", <<100>>), "dict"), PP(AVar("sh"), "list")}
+    ELSE IF s = "registry" THEN {PP(XV, "list"), PP(AIndex(ACall(AVar("fn"), <<>>), AVar("fn")), "list")}
     ELSE IF s = "set" THEN {PP(AIndex(XV, AInt(0)), "set"), PP(AIndex(AIndex(XV, AInt(1)), AInt(0)), "set"), PP(AVar("sh"), "set")}
     ELSE {PP(XV, "list"), PP(AIndex(XV, AInt(0)), "list"), PP(AVar("cap"), "list")}
 
@@ -140,6 +164,13 @@ Probe(s) ==
                                 SEmit(ACall(AVar("list"), <<AIndex(XV, AInt(2))>>)),
                                 SEmit(ABin("==", ADot(AIndex(XV, AInt(0)), "l", <<108>>), AVar("sh")))>> ELSE <<>>)
     \o (IF s = "factory" THEN <<SEmit(ACall(AVar("rdr"), <<>>))>> ELSE <<>>)
+    \o (IF s = "registry" THEN <<SEmit(ACall(AVar("len"), <<ACall(AVar("fn"), <<>>)>>)),
+                                  SEmit(ABin("in", AVar("fn"), ACall(AVar("fn"), <<>>))),
+                                  SEmit(ABin("in", AVar("vs"), ACall(AVar("fn"), <<>>))),
+                                  SEmit(ACall(AVar("len"), <<ACall(AVar("vs"), <<>>)>>)),
+                                  SEmit(ABin("in", AVar("vs"), ACall(AVar("vs"), <<>>))),
+                                  SEmit(ABin("in", AInt(3), ACall(AVar("vs"), <<>>))),
+                                  SEmit(ABin("==", ACall(AVar("fn"), <<>>), ACall(AVar("fn"), <<>>)))>> ELSE <<>>)
 ReadOps(T, kind) ==
     IF kind = "set" THEN
         <<SEmit(ACall(AVar("len"), <<T>>)),
@@ -172,12 +203,12 @@ Importer(c) == <<Probe(c.s), MutStmts(c.p.e, c.p.kind, c.mut), Probe(c.s), ReadO
                  \o (IF c.s \in {"closure", "factory"} THEN <<CallFnStmt, Probe(c.s)>> ELSE <<>>)
 Mods(c) == IF c.two THEN <<Importer(c), Importer(c)>> ELSE <<Importer(c)>>
 Loaded(c) == IF c.s = "aliased" \/ c.s = "set" \/ c.s = "record" THEN <<"x", "sh">> ELSE IF c.s = "closure" THEN <<"x", "cap", "fn">>
-             ELSE IF c.s = "factory" THEN <<"x", "fn", "rdr">> ELSE <<"x">>
+             ELSE IF c.s = "factory" THEN <<"x", "fn", "rdr">> ELSE IF c.s = "registry" THEN <<"x", "fn", "vs">> ELSE <<"x">>
 (* loaded in the reverse of A's declaration order, so that no name has the same slot in B as in A:
    a closure that resolved A's globals against B's slot table would read something else *)
 LoadedMid(c) == <<"make_rd", "make_app", "data">>
 
-Structures == {"nested", "aliased", "cyclic", "dict", "tuple", "closure", "factory", "struct", "set", "record"}
+Structures == {"nested", "aliased", "cyclic", "dict", "tuple", "closure", "factory", "struct", "set", "record", "registry"}
 Cases == {[s |-> s, p |-> p, mut |-> m, two |-> t] :
              s \in Structures,
              p \in UNION {Paths(s2) : s2 \in Structures},
